@@ -4,7 +4,10 @@ import (
 	"bytes"
 	"fmt"
 	"math"
+	"runtime"
 	"strconv"
+	"sync"
+	"sync/atomic"
 
 	cup "github.com/alibaba/RedisShake/pkg/libs/cupcake/rdb"
 	"github.com/alibaba/RedisShake/pkg/libs/cupcake/rdb/nopdecoder"
@@ -195,7 +198,7 @@ func c12(c *wk.Ctx) {
 	log.SetLevel(log.LEVEL_ERROR)
 	r.Rule = "(a) DecodeDump(EncodeDump(v)) == v with order for random logical values plus strings at the int8/16/32 boundaries and scores over special and random float64 bit patterns; " +
 		"(b) every compact/plain encoding generated from a known logical value (lib/rdbgen) -> real loader -> BinEntry.ObjEntry() must equal the logical value; ObjEntry.BinEntry() round trip; " +
-		"(c) rdb.NewEncoder file of (db,key,expiry,object) sequences -> loader -> same list, footer verifies; in-repo cupcake Encoder -> Decoder. distinct = (part, kind, encoding, size class)"
+		"(a2) batches of 40 payloads held while the later ones are serialised (EncodeDump and ObjEntry.BinEntry), and 8 goroutines serialising at the same time: every payload must keep its bytes and its value; (c) rdb.NewEncoder file of (db,key,expiry,object) sequences -> loader -> same list, footer verifies; in-repo cupcake Encoder -> Decoder. distinct = (part, kind, encoding, size class)"
 	if msg := refrdb.SelfTest(c.Seed, 300); msg != "" {
 		r.Inconcl("harness self-test failed: " + msg)
 		return
@@ -266,6 +269,95 @@ func c12(c *wk.Ctx) {
 		kind := rdbgen.Kinds[rng.Intn(6)]
 		v := rdbgen.RandValue(rng, kind, rng.Pick(0, 1, 2, 9, 70))
 		roundtrip(v, "random")
+	}
+
+	// ---- (a2) payloads are values of their own: one that is still held while later values are serialised (a batch
+	// built first and shipped afterwards; several workers serialising at the same time) must keep meaning its value
+	for b := 0; b < c.N(60, 1200); b++ {
+		type held struct {
+			v    *rdbgen.Value
+			p    []byte
+			copy []byte
+		}
+		var hs []held
+		for k := 0; k < 40; k++ {
+			v := rdbgen.RandValue(rng, rdbgen.Kinds[rng.Intn(6)], rng.Pick(1, 2, 9, 70))
+			var p []byte
+			var err error
+			if k%2 == 0 {
+				p, err = rdb.EncodeDump(toObj(v))
+			} else {
+				var be *rdb.BinEntry
+				be, err = (&rdb.ObjEntry{DB: 1, Key: []byte("k"), Value: toObj(v)}).BinEntry()
+				if err == nil {
+					p = be.Value
+				}
+			}
+			if err != nil {
+				continue
+			}
+			hs = append(hs, held{v, p, append([]byte{}, p...)})
+		}
+		r.Case("a2|held-batch")
+		r.Count("held_payloads", int64(len(hs)))
+		for i, h := range hs {
+			if !bytes.Equal(h.p, h.copy) {
+				r.Violationf("C12|encode|outcome=payload-changed-after-it-was-returned", describeValue(h.v), "payload #%d of a batch of %d (%s) no longer has the bytes it had when EncodeDump returned it: later serialisations wrote into it", i, len(hs), describeValue(h.v))
+				break
+			}
+			o, err := rdb.DecodeDump(h.p)
+			if err != nil || !sameOrdered(h.v, fromObj(o)) {
+				if h.v.Elements() == 0 && h.v.Kind != "string" {
+					continue
+				}
+				r.Violationf("C12|encode-decode|outcome=held-payload-decodes-to-another-value", describeValue(h.v), "payload #%d of a batch of %d decodes to %s, was serialised from %s (%v)", i, len(hs), describeValue(orEmpty(fromObj(o))), describeValue(h.v), err)
+				break
+			}
+		}
+	}
+	{
+		const workers = 8
+		var wg sync.WaitGroup
+		var mu sync.Mutex
+		bad := ""
+		var rounds int64
+		per := c.N(400, 8000)
+		for w := 0; w < workers; w++ {
+			wg.Add(1)
+			wr := rng.Split(uint64(0xC12000 + w))
+			go func(wr *prng.R) {
+				defer wg.Done()
+				defer func() {
+					if x := recover(); x != nil {
+						mu.Lock()
+						bad = fmt.Sprintf("panic in a serialising worker: %v", x)
+						mu.Unlock()
+					}
+				}()
+				for i := 0; i < per; i++ {
+					v := rdbgen.RandValue(wr, rdbgen.Kinds[wr.Intn(6)], wr.Pick(1, 2, 9, 70))
+					p, err := rdb.EncodeDump(toObj(v))
+					if err != nil {
+						continue
+					}
+					runtime.Gosched()
+					o, err := rdb.DecodeDump(p)
+					if (err != nil || !sameOrdered(v, fromObj(o))) && !(v.Elements() == 0 && v.Kind != "string") {
+						mu.Lock()
+						bad = fmt.Sprintf("with %d goroutines serialising at the same time, a payload decodes to %s, was serialised from %s (%v)", workers, describeValue(orEmpty(fromObj(o))), describeValue(v), err)
+						mu.Unlock()
+						return
+					}
+					atomic.AddInt64(&rounds, 1)
+				}
+			}(wr)
+		}
+		wg.Wait()
+		r.Case("a2|concurrent-encoders")
+		r.Count("concurrent_encode_decode_rounds", rounds)
+		if bad != "" {
+			r.Violationf("C12|encode-decode|outcome=concurrent-serialisation-corrupts-payload", nil, "%s", bad)
+		}
 	}
 
 	// ---- (b) loader -> ObjEntry for every encoding
